@@ -105,8 +105,9 @@ def run_variant(v, props=None):
         shutil.rmtree(tmp, ignore_errors=True)
 
 
-def judge(v, results):
-    """-> (ok, message)"""
+def judge(v, results, undecided=()):
+    """-> (ok, message); a fire variant aimed at a clause that is undecided on the tree under test (the rule does not
+    recognise how this tree does it) cannot be expected to fire and is reported as not applicable"""
     if v['expect'] == 'silent':
         bad = [(pid, rc) for pid, rc, out in results if rc != 0]
         return (not bad, f'behaviour-preserving variant alarmed: {bad}' if bad else 'silent')
@@ -117,11 +118,14 @@ def judge(v, results):
         if fired and want:
             fired = any((w in out) for w in ([want] if isinstance(want, str) else want))
         if not fired:
+            wants = [want] if isinstance(want, str) else list(want or [])
+            if rc == 0 and undecided and any(u.startswith(w) or w.startswith(u) for u in undecided for w in wants):
+                continue
             msgs.append(f'{pid}: rc={rc}, expected a VIOLATION naming {want}')
     return (not msgs, '; '.join(msgs) or 'fired')
 
 
-def run(pid=None, jobs=None, verbose=False):
+def run(pid=None, jobs=None, verbose=False, undecided=()):
     cat = [v for v in load_catalog() if pid is None or pid in v['props']]
     if not cat:
         print(f'liveness: no variants catalogued for {pid}')
@@ -136,7 +140,7 @@ def run(pid=None, jobs=None, verbose=False):
                 skipped += 1
                 print(f'liveness: variant {v["id"]} skipped ({res})')
                 continue
-            ok, msg = judge(v, res)
+            ok, msg = judge(v, res, undecided)
             if not ok:
                 dead += 1
                 print(f'LIVENESS-FAIL variant={v["id"]} ({v["expect"]}): {msg}')
